@@ -36,6 +36,8 @@ const (
 	c33SigStart = "locateHeaders: start is the FIRST main-chain locator entry, not the highest (unsorted locator)"
 )
 
+var c33seen = map[string]int{}
+
 type c33own struct {
 	headers map[bc.Hash]*types.Block
 	main    map[uint64]*types.Block
@@ -302,6 +304,12 @@ func c33oracle(c *Ctx, s *c33state, line, kind string, hs []*types.BlockHeader, 
 	fail := func(what, sig string) {
 		if sig == "" {
 			sig = what + ": " + line
+		}
+		if sig == c33SigWrap || sig == c33SigStart {
+			c33seen[sig]++
+			if c33seen[sig] > 3 {
+				return
+			}
 		}
 		c.Fail(sig, what+" — response "+c33show(s, hs, nil))
 	}
